@@ -108,6 +108,36 @@ type CtlB struct {
 func (c *CtlB) GetY() error { return nil }
 `
 
+const cfgCtlC = `package sub
+
+import "github.com/gopher-fleece/runtime"
+
+// @Tag(TagC)
+// @Route(/c)
+type CtlC struct {
+	runtime.GleeceController
+}
+
+// @Method(GET)
+// @Route(/z)
+func (c *CtlC) GetZ() error { return nil }
+`
+
+const cfgCtlD = `package deep
+
+import "github.com/gopher-fleece/runtime"
+
+// @Tag(TagD)
+// @Route(/d)
+type CtlD struct {
+	runtime.GleeceController
+}
+
+// @Method(GET)
+// @Route(/w)
+func (c *CtlD) GetW() error { return nil }
+`
+
 func implCfg(in json.RawMessage) (any, error) {
 	var ci cfgIn
 	if err := json.Unmarshal(in, &ci); err != nil {
@@ -143,6 +173,10 @@ func implCfg(in json.RawMessage) (any, error) {
 	os.MkdirAll(filepath.Join(dir, "ctl"), 0o755)
 	os.WriteFile(filepath.Join(dir, "ctl", "a.go"), []byte(cfgCtlA), 0o644)
 	os.WriteFile(filepath.Join(dir, "ctl", "b.go"), []byte(cfgCtlB), 0o644)
+	// a deeper tree, so that `**` and `{a,b}` globs select something a plain `*` does not
+	os.MkdirAll(filepath.Join(dir, "ctl", "sub", "deep"), 0o755)
+	os.WriteFile(filepath.Join(dir, "ctl", "sub", "c.go"), []byte(cfgCtlC), 0o644)
+	os.WriteFile(filepath.Join(dir, "ctl", "sub", "deep", "d.go"), []byte(cfgCtlD), 0o644)
 	writeProject(pProject{}, dir) // auth package
 	os.WriteFile(filepath.Join(dir, "go.mod"), []byte(projGoMod()), 0o644)
 	sum, _ := os.ReadFile(filepath.Join(repoRoot(), "go.sum"))
@@ -382,7 +416,11 @@ func genCfg(seed uint64, n int, tier string, emit func(string, []string, any)) {
 		{path: append(append([]string{}, o...), "defaultSecurity"), del: true},
 		{path: append(append([]string{}, o...), "defaultSecurity", "name"), vals: []any{"", "9bad"}},
 		{path: append(append([]string{}, o...), "defaultSecurity", "scopes"), del: true},
-		{path: []string{"commonConfig", "controllerGlobs"}, vals: []any{[]any{"./ctl/a.go"}, []any{}, []any{"./ctl/*.go", "./nothing/*.go"}, []any{"./ctl/b.go"}}},
+		{path: []string{"commonConfig", "controllerGlobs"}, vals: []any{[]any{"./ctl/a.go"}, []any{}, []any{"./ctl/*.go", "./nothing/*.go"}, []any{"./ctl/b.go"},
+			// doublestar shapes: `**` over zero / one / two directories, alternation, `?`, a `*` directory
+			[]any{"./ctl/**/*.go"}, []any{"./**/*.go"}, []any{"./ctl/sub/**/*.go"}, []any{"./ctl/**/d.go"}, []any{"**/c.go"}, []any{"./ctl/**"},
+			[]any{"./ctl/{a,b}.go"}, []any{"./ctl/{b,sub/c}.go"}, []any{"./ctl/?.go"}, []any{"./ctl/*/c.go"}, []any{"./ctl/*/*/d.go"}, []any{"./ctl/*/d.go"},
+			[]any{"./ctl/sub/*.go", "./ctl/a.go"}}},
 		{path: []string{"commonConfig", "controllerGlobs"}, del: true},
 	}
 	for _, m := range muts {
